@@ -260,7 +260,7 @@ static void p_observe_errors (void)
 static const char *const near_bases[][4] = {
   /* G1 */ { "aaaaaaaa", "abababab", "aaaabaaa", "aaaaaaaaaaaaaaaaaaaaaaaa" }, /* G2 */ { "aaaaaaab", "aaab", 0, 0 }, /* G3 */ { "a+a*a+a", "a*a+a*a+a", "a+a+a+a", 0 },
   /* G4 */ { "aba", "ab", 0, 0 }, /* G5 */ { "aaabbb", "aabb", "aaaabbb", 0 }, /* G6 */ { "bbbbbba", "bba", 0, 0 }, /* G7 */ { "abbaabba", "abaaba", "aabbbbaa", 0 },
-  /* G8 */ { "iixeixex", "iiixexex", 0, 0 }, /* G9 */ { "(a+a)+(a+a)", "(a+(a+a))+a", "a+(a+a+a", 0 }, /* G10 */ { "a;a;a;a;", "a;bbb;a;bbb;", "a;bb;a;", "a;ab;a;a;" },
+  /* G8 */ { "iixeixex", "iiixexex", 0, 0 }, /* G9 */ { "(a+a)+(a+a)", "(a+(a+a))+a", "a+(a+a+a", "(a++a)+(+a)" }, /* G10 */ { "a;a;a;a;", "a;bbb;a;bbb;", "a;bb;a;", "a;ab;a;a;" },
   /* G11 */ { "axy", "axz", 0, 0 }, /* G12 */ { "xabcyabd", "xabcxabc", "xacyad", "xabcyad" }, /* G13 */ { "aab", "ba", "cca", "ca" }, /* G14 */ { "aaaaaa", "baaaa", "bbaaa", 0 },
   /* G15 */ { "(a+a)*a+a", "a*(a+a)*(a+a)", "a+a*a+a*a+a", "(a+a*(a+a))" }, /* G16 */ { "a;a;a;a;", "a;ba;a;", 0, 0 }, /* G17 */ { "abcd", "bcacdd", 0, 0 }, /* G18 */ { "aa", "a", 0, 0 },
   /* G19 */ { "xabcxabcyabd", "xacyadxacyad", "xabcyabdxabc", "yadyadyad" },
@@ -268,6 +268,9 @@ static const char *const near_bases[][4] = {
   /* G23 */ { "aaa", "aaaa", "aa", 0 }, /* G24 */ { "(a))", "(at,(a),a)a", "(a,a", "(a,at)" }, /* G25 */ { "bca", "abcd", "bcd", "bcad" },
   /* G26 */ { "a", 0, 0, 0 }, /* G27 */ { "yyy", "yyyyy", 0, 0 },
   /* G28 */ { "aaa", "aaaa", 0, 0 }, /* G29 */ { "ab", "acb", "abc", "a" }, /* G30 */ { "abcxyyr", "abcd", "abxq", "abcxr" },
+    /* G31 */ { "xxbq", "xxbp", "xbp", "xxnbq" }, /* G32 */ { "x", "xd", "xdcbat", "xt" },
+  /* G33 */ { "a*a+a", "a+a*a+a", "a*a+a*a+a", "a*a+a+a" },
+  /* G34 */ { "(a++a)+(+a)", "(a+)+(a", "(+a)", "((+)" },
 };
 static void p_input_near (int gi, int base, int k)
 {
